@@ -129,11 +129,13 @@ def fitted_curve(rng, big=False):
         f[seg == 1] -= 0.3 * f.max() * np.exp(-np.linspace(0, 6, int(np.sum(seg == 1))))
     idnt._raw_data["force"] = f
     idnt.reset_data()
-    meta = {"model": mk, "n_app": n_app, "noise": noise, "kind": kind}
+    meta = {"model": mk, "n_app": n_app, "noise": noise, "kind": kind,
+            "fit_segment": rng.choice([0, 0, 0, "approach", 1, "retract"])}
     with warnings.catch_warnings():
         warnings.simplefilter("ignore")
         idnt.fit_model(model_key=mk, params_initial=None, preprocessing=["compute_tip_position", "correct_tip_offset"],
-                       range_x=rng.choice([(0, 0), (0, 0), (-1e-6, 5e-7)]), range_type="absolute")
+                       range_x=rng.choice([(0, 0), (0, 0), (-1e-6, 5e-7)]), range_type="absolute",
+                       segment=meta["fit_segment"])
     return idnt, meta
 
 
@@ -198,6 +200,12 @@ def oracle_curve(ctx, idnt, meta):
     ctx.case({**meta, "fitted": fitted}, nontrivial=json.dumps(meta, sort_keys=True, default=str),
              bucket=["curve=" + meta.get("kind", "?"), "fitted=" + str(fitted)])
     judge_values(ctx, meta, names, vals, ymax_pos, rep)
+    # the size feature is a property of the approach segment alone, whatever segment was fitted
+    napr = int(np.sum(seg0))
+    vs = dict(zip(names, vals)).get("feat_bin_size")
+    if vs is not None and not np.isnan(vs) and bool(vs) != (napr >= 600):
+        ctx.violation("size-feature-not-from-approach-segment", f"feat_bin_size = {vs!r} for an approach segment of "
+                      f"{napr} points (fitted segment: {idnt.fit_properties.get('segment')})", rep)
     if not fitted:
         for n, v in zip(names, vals):
             if n not in FIT_FREE and not np.isnan(v):
